@@ -16,6 +16,8 @@ package main
 //        raw HEX                             HEX = the file's bytes as the *generator's* run of the real
 //                                            writer left them; both sides parse them with their reader
 //        ccfg BS NAMESPEC | cw KEYSPEC CONTENTSPEC | cd KEYSPEC | cclose | cload
+//        cwb K|KEYSPEC|CONTENTSPEC;…          ONE Write call with several treasures; K = i (no file name → INSERT),
+//                                            u (file name set → UPDATE), d (marked deleted → DELETE)
 //                                            the same through the chronicler: Write([]Treasure) picks INSERT/DELETE,
 //                                            Close, and a *new* chronicler's Load into a beacon (reply cidx N:CRC)
 // reply: ok | rej KIND
@@ -476,6 +478,38 @@ func (c *c01Chron) apply(dir string, n *int, f []string) string {
 		t.ReleaseTreasureGuard(g)
 		c.ch.Write([]treasure.Treasure{t})
 		return "ok"
+	case f[0] == "cwb" && len(f) == 2:
+		var batch []treasure.Treasure
+		for _, it := range strings.Split(f[1], ";") {
+			p := strings.Split(it, "|")
+			if len(p) != 3 {
+				return "bad-op"
+			}
+			k, ok1 := c01Spec(p[1])
+			v, ok2 := c01Spec(p[2])
+			if !ok1 || !ok2 {
+				return "bad-op"
+			}
+			t := treasure.New(nil)
+			g := t.StartTreasureGuard(false, guard.BodyAuthID)
+			t.BodySetKey(g, string(k))
+			switch p[0] {
+			case "i":
+				t.SetContentString(g, string(v))
+			case "u":
+				t.SetContentString(g, string(v))
+				t.BodySetFileName(g, c.path+".hyd")
+			case "d":
+				t.BodySetForDeletion(g, "verif", true)
+			default:
+				t.ReleaseTreasureGuard(g)
+				return "bad-op"
+			}
+			t.ReleaseTreasureGuard(g)
+			batch = append(batch, t)
+		}
+		c.ch.Write(batch)
+		return "ok"
 	case f[0] == "cclose" && len(f) == 1:
 		if err := c.ch.Close(); err != nil {
 			return "err close"
@@ -731,6 +765,23 @@ func c01Gen(rng *rand.Rand, tier string, w *bufio.Writer) {
 		for i, n := 0, 4+rng.Intn(40); i < n; i++ {
 			k := keys[rng.Intn(len(keys))]
 			switch p := rng.Intn(100); {
+			case p < 20: // one Write call with several treasures: INSERT / UPDATE / DELETE mixed
+				var items []string
+				for j, m := 0, 2+rng.Intn(5); j < m; j++ {
+					kk := keys[rng.Intn(len(keys))]
+					if (c == 2 || c == 3) && j == 1 { // an unencodable key in the middle of a batch
+						kk = []string{"x:-", "g:70000:5"}[c-2]
+					}
+					switch rng.Intn(5) {
+					case 0:
+						items = append(items, "d|"+kk+"|x:-")
+					case 1, 2:
+						items = append(items, fmt.Sprintf("u|%s|g:%d:%d", kk, 1+rng.Intn(300), rng.Intn(1000)))
+					default:
+						items = append(items, fmt.Sprintf("i|%s|g:%d:%d", kk, 1+rng.Intn(300), rng.Intn(1000)))
+					}
+				}
+				fmt.Fprintf(w, "cwb %s\n", strings.Join(items, ";"))
 			case p < 65:
 				fmt.Fprintf(w, "cw %s g:%d:%d\n", k, 1+rng.Intn([]int{8, 60, 600, 20000}[rng.Intn(4)]), rng.Intn(1000))
 			case p < 85:
